@@ -588,6 +588,25 @@ func classifyIndex(w *World, fn *ssa.Function, in ssa.Instruction, coll, idx ssa
 			}
 		}
 	}
+	// G1r: the counter of a rotated counting loop (`for i := range n`): 0 on entry under 0 < n, i+1 on the back edge
+	// under i+1 < n - so 0 <= i < n throughout the body; n is the length of the collection (or the slice was made with it)
+	if phi, ok := idx.(*ssa.Phi); ok {
+		if n := rotatedBound(phi); n != nil {
+			if c, ok := lenOf(n); ok && sameColl(c, coll) {
+				return kind, "G1", "counter of a `range len(c)` loop indexing c"
+			}
+			if mk, ok := coll.(*ssa.MakeSlice); ok && (mk.Len == n || sameVal(mk.Len, n)) {
+				return kind, "G1", "counter of a `range n` loop indexing a slice made with length n"
+			}
+			if c, ok := lenOf(n); ok {
+				if mk, ok := coll.(*ssa.MakeSlice); ok {
+					if c2, ok := lenOf(mk.Len); ok && sameColl(c2, c) {
+						return kind, "G1", "counter of a `range len(c)` loop indexing a slice made with make([]T, len(c))"
+					}
+				}
+			}
+		}
+	}
 	// G7: sort callback parameters
 	if fn.Parent() != nil {
 		if p, ok := idx.(*ssa.Parameter); ok && isSortCallback(fn) {
@@ -815,6 +834,47 @@ func concatConstCount(v ssa.Value, sep string, depth int) int {
 		return concatConstCount(bo.X, sep, depth+1) + concatConstCount(bo.Y, sep, depth+1)
 	}
 	return 0
+}
+
+// rotatedBound: phi is the counter of a rotated counting loop - [entry: 0 under `0 < n`, back edge: phi+1 under
+// `phi+1 < n`] - returns n (nil otherwise).
+func rotatedBound(phi *ssa.Phi) ssa.Value {
+	h := phi.Block()
+	var bound ssa.Value
+	for i, e := range phi.Edges {
+		pred := h.Preds[i]
+		iff, ok := pred.Instrs[len(pred.Instrs)-1].(*ssa.If)
+		if !ok || pred.Succs[0] != h {
+			return nil
+		}
+		bo, ok := iff.Cond.(*ssa.BinOp)
+		if !ok || bo.Op != token.LSS {
+			return nil
+		}
+		if h.Dominates(pred) {
+			// back edge: phi + 1 < n
+			inc, ok := e.(*ssa.BinOp)
+			if !ok || inc.Op != token.ADD || inc.X != ssa.Value(phi) || bo.X != ssa.Value(inc) {
+				return nil
+			}
+			if k, ok := constInt(inc.Y); !ok || k != 1 {
+				return nil
+			}
+		} else {
+			// entry: 0 < n
+			if k, ok := constInt(e); !ok || k != 0 {
+				return nil
+			}
+			if k, ok := constInt(bo.X); !ok || k != 0 {
+				return nil
+			}
+		}
+		if bound != nil && bound != bo.Y && !sameVal(bound, bo.Y) {
+			return nil
+		}
+		bound = bo.Y
+	}
+	return bound
 }
 
 func derivedByTrim(trimmed, orig ssa.Value) bool {
@@ -1050,6 +1110,16 @@ func classifyLoop(w *World, fn *ssa.Function, h *ssa.BasicBlock) (kind string, o
 				}
 				if walk {
 					return "parent-walk", true, "every cycle moves to the node's Parent and the loop is left at the root (Parent chains are finite)"
+				}
+			}
+		}
+	}
+	if isIf {
+		// rotated counting loop (`for i := range n`): the test at the bottom compares counter+1 with the bound
+		if bo, ok := iff.Cond.(*ssa.BinOp); ok && bo.Op == token.LSS {
+			if inc, ok := bo.X.(*ssa.BinOp); ok && inc.Op == token.ADD {
+				if phi, ok := inc.X.(*ssa.Phi); ok && phi.Block() == h && rotatedBound(phi) != nil && loopInvariant(bo.Y, loop) {
+					return "counter", true, "counting loop over 0..n-1 (range over an int): strictly increasing counter with strict upper bound"
 				}
 			}
 		}
